@@ -1,19 +1,33 @@
 import OZ.DrvUtil
-import OZ.Model.SmartAccount
+import OZ.Model.SmartAccountMon
 /-
 Driver for C03 (smart-account authorization is sound and follows rule precedence).
 
-`op`  : the MODEL (OZ.SmartAccount) run on the op lines written by harness/src/bin/c03.rs;
-        the mock verifier / policy contracts of the harness are the model's oracles and are
-        mirrored here from the `vset` / `pset` lines.
-`mon` : the MONITOR. It never calls the model. From the accepted management ops it keeps its
-        own plain list of rules (cross-checked against the implementation's getters), recomputes
-        for every context the candidate rules in precedence order (type-specific by descending
-        id, then Default by descending id, unexpired) and evaluates the property's conclusion on
-        the implementation's observation of every `check` / `e2e`.
+This file only PARSES the lines written by harness/src/bin/c03.rs (`parseMOp`, `parseObs`, the
+sequence label) and prints the model's answer; everything else lives in
+OZ/Model/SmartAccountMon.lean on parsed values:
+
+`op`  : the MODEL (OZ.SmartAccount) run on the op lines: `OZ.SmartAccount.Mon.mstep`; the mock
+        verifier / policy contracts of the harness are the model's oracles and are mirrored from
+        the `vset` / `pset` lines (`Mocks`, `applySetter`).
+`mon` : the MONITOR: `OZ.SmartAccount.Mon.checkCore`. It never calls the model. From the accepted
+        management ops it keeps its own plain list of rules (cross-checked against the
+        implementation's getters), recomputes for every context the candidate rules in
+        precedence order (type-specific by descending id, then Default by descending id,
+        unexpired) and evaluates the property's conclusion on the implementation's observation
+        of every `check` / `e2e`. OZ/Props/C03Mon.lean proves `checkCore` silent on every model
+        trace (`monitor_accepts_every_model_trace`).
+
+String-level parts that stay here and are NOT covered by that theorem:
+  * `parseMOp` / `parseObs` / `parseLabel` and the renderers `obsLine` / `showStore` (the model's
+    line is `obsLine` of the same data `modelObs` of OZ/Props/C03Mon.lean is built from);
+  * `site=c03.parse` (an op or observation line that does not parse);
+  * `Obs.flagged` (a `!` or `?` anywhere in the line, or a getter dump that does not parse);
+  * log entries that are not in canonical form become `LEv.other` (the monitor then reports
+    c03.foreign / c03.sound.verified for them).
 -/
 namespace OZ.Drv.C03
-open OZ.Drv OZ.SmartAccount
+open OZ.Drv OZ.SmartAccount OZ.SmartAccount.Mon
 
 /-! ### shared syntax -/
 
@@ -30,20 +44,11 @@ def parseSigner (s : String) : Option Signer :=
     | _ => none
   else none
 
-def showSigner : Signer → String
-  | .delegated a => s!"d{a}"
-  | .external v k => s!"x{v}.{k}"
-
 def parseType (s : String) : Option RuleType :=
   if s = "D" then some .default
   else if s.startsWith "C" then (dropS s 1).toNat?.map RuleType.call
   else if s.startsWith "K" then (dropS s 1).toNat?.map RuleType.create
   else none
-
-def showType : RuleType → String
-  | .default => "D"
-  | .call a => s!"C{a}"
-  | .create h => s!"K{h}"
 
 def parseCtx (s : String) : Option Ctx :=
   match (dropS s 1).splitOn "." with
@@ -53,17 +58,7 @@ def parseCtx (s : String) : Option Ctx :=
     else none
   | _ => none
 
-def showCtx : Ctx → String
-  | .call a t => s!"C{a}.{t}"
-  | .create h t => s!"K{h}.{t}"
-
-def plus (l : List String) : String := if l.isEmpty then "-" else "+".intercalate l
-def commas (l : List String) : String := if l.isEmpty then "-" else ",".intercalate l
-
 def parseOptNat (s : String) : Option Nat := if s = "-" then none else s.toNat?
-def showOptNat : Option Nat → String
-  | some n => toString n
-  | none => "-"
 
 def parseSigs (s : String) : List (Signer × Nat) :=
   (splitList "," s).filterMap (fun t =>
@@ -71,106 +66,80 @@ def parseSigs (s : String) : List (Signer × Nat) :=
     | [a, g] => do pure ((← parseSigner a), (← g.toNat?))
     | _ => none)
 
-/-! ### the mocks of the harness as oracle tables (used by model side and, separately, by the monitor) -/
+def parseSigners (s : String) : List Signer := (splitList "+" s).filterMap parseSigner
+def parseNats (s : String) : List Nat := (splitList "+" s).filterMap String.toNat?
 
-structure PolCfg where
-  thr : List (Nat × Nat) := []
-  dflt : Nat := 0
-  denyFn : List Nat := []
-  denyCreate : Bool := false
-  budget : Option Nat := none
-  installTrap : Bool := false
-  uninstTrap : Bool := false
+/-! ### op lines -/
 
-structure Mocks where
-  vmode : List ((Nat × Nat) × Nat) := []
-  pols : List (Nat × PolCfg) := []
+def two (s : String) : Option (Nat × Nat) :=
+  match s.splitOn ":" with
+  | [a, b] => do pure ((← a.toNat?), (← b.toNat?))
+  | _ => none
 
-def lookup {α β} [BEq α] (l : List (α × β)) (k : α) : Option β := (l.find? (fun p => p.1 == k)).map (·.2)
-def setKey {α β} [BEq α] (l : List (α × β)) (k : α) (v : β) : List (α × β) := (k, v) :: l.filter (fun p => !(p.1 == k))
+def parsePSet (rest : List String) : PSet :=
+  match kv? rest "thr", kv? rest "dflt", kv? rest "denyfn", kv? rest "denycreate", kv? rest "budget",
+        kv? rest "install", kv? rest "uninst" with
+  | some x, _, _, _, _, _, _ => match two x with
+    | some (r, k) => .thr r k
+    | none => .nop
+  | _, some x, _, _, _, _, _ => .dflt (x.toNat?.getD 0)
+  | _, _, some x, _, _, _, _ => match two x with
+    | some (f, on) => .denyFn f on
+    | none => .nop
+  | _, _, _, some x, _, _, _ => .denyCreate (x != "0")
+  | _, _, _, _, some x, _, _ => .budget (parseOptNat x)
+  | _, _, _, _, _, some x, _ => .install (x != "0")
+  | _, _, _, _, _, _, some x => .uninst (x != "0")
+  | _, _, _, _, _, _, _ => .nop
 
-def Mocks.pol (m : Mocks) (p : Nat) : PolCfg := (lookup m.pols p).getD {}
-
-/-- MockVerifier::verify; verifier index ≥ 2 is an address without a contract (the call traps) -/
-def Mocks.verify (m : Mocks) (v k g : Nat) : Bool :=
-  if v ≥ 2 then false
-  else match (lookup m.vmode (v, k)).getD 0 with
-    | 0 => g == 1
-    | 1 => true
-    | _ => false
-
-/-- MockPolicy::can_enforce -/
-def Mocks.can (m : Mocks) (p : Nat) (ctx : Ctx) (n : Nat) (ruleId : Nat) : Bool :=
-  let c := m.pol p
-  let thr := (lookup c.thr ruleId).getD c.dflt
-  let denied := match ctx with
-    | .call _ t => c.denyFn.contains t
-    | .create _ _ => c.denyCreate
-  decide (n ≥ thr) && !denied
-
-/-- MockPolicy::enforce does not trap after `before` earlier enforce calls on the same policy -/
-def Mocks.enfOk (m : Mocks) (p : Nat) (before : Nat) : Bool :=
-  match (m.pol p).budget with
-  | none => true
-  | some b => decide (before < b)
-
-def Mocks.spend (m : Mocks) (ps : List Nat) : Mocks :=
-  ps.foldl (fun m p =>
-    match (m.pol p).budget with
-    | none => m
-    | some b => { m with pols := setKey m.pols p { m.pol p with budget := some (b - 1) } }) m
-
-def applySetter (m : Mocks) (ws : List String) : Mocks :=
+def parseSetter (ws : List String) : Setter :=
   match ws with
   | "sa" :: "vset" :: rest =>
     match kvNat? rest "v", kvNat? rest "k", kvNat? rest "mode" with
-    | some v, some k, some mode => { m with vmode := setKey m.vmode (v, k) mode }
-    | _, _, _ => m
+    | some v, some k, some mode => .vset v k mode
+    | _, _, _ => .nop
   | "sa" :: "pset" :: rest =>
     match kvNat? rest "p" with
-    | none => m
-    | some p =>
-      let c := m.pol p
-      let two (s : String) : Option (Nat × Nat) := match s.splitOn ":" with
-        | [a, b] => do pure ((← a.toNat?), (← b.toNat?))
-        | _ => none
-      let c' : PolCfg :=
-        match kv? rest "thr", kv? rest "dflt", kv? rest "denyfn", kv? rest "denycreate", kv? rest "budget",
-              kv? rest "install", kv? rest "uninst" with
-        | some x, _, _, _, _, _, _ => match two x with
-          | some (r, k) => { c with thr := setKey c.thr r k }
-          | none => c
-        | _, some x, _, _, _, _, _ => { c with dflt := x.toNat?.getD 0 }
-        | _, _, some x, _, _, _, _ => match two x with
-          | some (f, on) => { c with denyFn := if on = 0 then c.denyFn.filter (· != f) else f :: c.denyFn.filter (· != f) }
-          | none => c
-        | _, _, _, some x, _, _, _ => { c with denyCreate := x != "0" }
-        | _, _, _, _, some x, _, _ => { c with budget := parseOptNat x }
-        | _, _, _, _, _, some x, _ => { c with installTrap := x != "0" }
-        | _, _, _, _, _, _, some x => { c with uninstTrap := x != "0" }
-        | _, _, _, _, _, _, _ => c
-      { m with pols := setKey m.pols p c' }
-  | _ => m
+    | none => .nop
+    | some p => .pset p (parsePSet rest)
+  | _ => .nop
 
-/-! ### model side -/
+def parseMOp (ws : List String) : Option MOp :=
+  match ws with
+  | "sa" :: "vset" :: _ | "sa" :: "pset" :: _ => some (.setter (parseSetter ws))
+  | "sa" :: "ledger" :: rest => some (.ledger (kvNat? rest "seq"))
+  | "sa" :: "add" :: rest =>
+    match (kv? rest "t").bind parseType with
+    | none => none
+    | some t =>
+      some (.add t (parseOptNat ((kv? rest "vu").getD "-")) (parseSigners ((kv? rest "s").getD "-"))
+        (parseNats ((kv? rest "p").getD "-")))
+  | "sa" :: "rm" :: rest => some (.rm ((kvNat? rest "id").getD 0))
+  | "sa" :: "vu" :: rest => some (.vu ((kvNat? rest "id").getD 0) (parseOptNat ((kv? rest "vu").getD "-")))
+  | "sa" :: "name" :: rest => some (.name ((kvNat? rest "id").getD 0))
+  | "sa" :: "adds" :: rest => ((kv? rest "s").bind parseSigner).map (MOp.adds ((kvNat? rest "id").getD 0))
+  | "sa" :: "rms" :: rest => ((kv? rest "s").bind parseSigner).map (MOp.rms ((kvNat? rest "id").getD 0))
+  | "sa" :: "addp" :: rest => some (.addp ((kvNat? rest "id").getD 0) ((kvNat? rest "p").getD 0))
+  | "sa" :: "rmp" :: rest => some (.rmp ((kvNat? rest "id").getD 0) ((kvNat? rest "p").getD 0))
+  | "sa" :: kind :: rest =>
+    if kind = "check" ∨ kind = "e2e" then
+      some (.check (parseSigs ((kv? rest "sigs").getD "-")) (natList ((kv? rest "auth").getD "-"))
+        ((splitList "," ((kv? rest "ctx").getD "-")).filterMap parseCtx))
+    else none
+  | _ => none
 
-structure St where
-  s : Store
-  now : Nat
-  mocks : Mocks
+/-- sequence label: `... start=<ledger> s0=<signers> p0=<policies>` -/
+def parseLabel (label : String) : Nat × List Signer × List Nat :=
+  let ws := words label
+  ((kvNat? ws "start").getD 100, parseSigners ((kv? ws "s0").getD "-"), parseNats ((kv? ws "p0").getD "-"))
 
-def oracleOf (m : Mocks) (auth : List Nat) : Oracle :=
-  { verify := m.verify
-    auth := fun a => auth.contains a
-    can := fun p ctx matched rule => m.can p ctx matched.length rule.id
-    enf := fun hist c => m.enfOk c.policy (hist.filter (fun h => h.policy == c.policy)).length }
+/-! ### model side: render the model's answer -/
 
 def showRule (r : Rule) : String :=
   s!"{r.id}~{showOptNat r.validUntil}~{plus (r.signers.map showSigner)}~{plus (r.policies.map toString)}"
 
-def typeUniverse : List RuleType :=
-  [.default, .call 0, .call 1, .call 2, .create 0, .create 1, .create 2]
-
+/-- every getter over the type universe and all ids (the parsed form of this dump is `modelObs`
+in OZ/Props/C03Mon.lean) -/
 def showStore (s : Store) : String :=
   let parts := typeUniverse.map (fun t =>
     match getContextRules s (s.ids t) with
@@ -182,338 +151,116 @@ def showStore (s : Store) : String :=
     | .error _ => none)
   s!"cnt={s.count} ids={commas ids} {"|".intercalate parts}"
 
-def showEvent : Event → Option String
-  | .verify v k g => if v ≥ 2 then none else some s!"v{v}.{k}.{g}"
-  | .can p r c m => some s!"c{p}/{r.id}/{showCtx c}/{plus (m.map showSigner)}"
-  | .enforce p r c m => some s!"e{p}/{r.id}/{showCtx c}/{plus (m.map showSigner)}"
-
 def showLog (l : List String) : String := if l.isEmpty then "-" else ";".intercalate l
 
 def obsLine (st : St) (ok : Bool) (id : Option Nat) (log : List String) : String :=
   s!"{if ok then "ok" else "err"} id={showOptNat id} now={st.now} log={showLog log} {showStore st.s}"
 
-def initSt (label : String) : St :=
-  let ws := words label
-  let start := (kvNat? ws "start").getD 100
-  let s0 := (splitList "+" ((kv? ws "s0").getD "-")).filterMap parseSigner
-  let p0 := (splitList "+" ((kv? ws "p0").getD "-")).filterMap String.toNat?
-  let s := match addContextRule Store.empty start .default 0 none s0 p0 (fun _ => true) with
-    | .ok (s, _) => s
-    | .error _ => Store.empty
-  { s := s, now := start, mocks := {} }
-
-def mgmt (st : St) (r : Except Err Store) (id : Option Nat) (log : List String) : St × String :=
-  match r with
-  | .ok s' => let st' := { st with s := s' }; (st', obsLine st' true id log)
-  | .error _ => (st, obsLine st false none [])
+def initM (label : String) : St :=
+  let p := parseLabel label
+  initSt p.1 p.2.1 p.2.2
 
 def stepLine (st : St) (line : String) : St × String :=
-  let ws := words line
-  match ws with
-  | "sa" :: "vset" :: _ | "sa" :: "pset" :: _ =>
-    let st' := { st with mocks := applySetter st.mocks ws }
-    (st', obsLine st' true none [])
-  | "sa" :: "ledger" :: rest =>
-    let st' := { st with now := (kvNat? rest "seq").getD st.now }
-    (st', obsLine st' true none [])
-  | "sa" :: "add" :: rest =>
-    match (kv? rest "t").bind parseType with
-    | none => (st, "bad-op")
-    | some t =>
-      let vu := parseOptNat ((kv? rest "vu").getD "-")
-      let sg := (splitList "+" ((kv? rest "s").getD "-")).filterMap parseSigner
-      let pm := (splitList "+" ((kv? rest "p").getD "-")).filterMap String.toNat?
-      match addContextRule st.s st.now t 0 vu sg pm (fun p => !(st.mocks.pol p).installTrap) with
-      | .ok (s', r) => mgmt st (.ok s') (some r.id) (r.policies.map (fun p => s!"i{p}/{r.id}"))
-      | .error e => mgmt st (.error e) none []
-  | "sa" :: "rm" :: rest =>
-    let id := (kvNat? rest "id").getD 0
-    let pols := match getContextRule st.s id with
-      | .ok r => r.policies
-      | .error _ => []
-    mgmt st (removeContextRule st.s id) none (pols.map (fun p => s!"u{p}/{id}"))
-  | "sa" :: "vu" :: rest =>
-    let id := (kvNat? rest "id").getD 0
-    mgmt st (updateValidUntil st.s st.now id (parseOptNat ((kv? rest "vu").getD "-"))) (some id) []
-  | "sa" :: "name" :: rest =>
-    let id := (kvNat? rest "id").getD 0
-    mgmt st (updateName st.s id 1) (some id) []
-  | "sa" :: "adds" :: rest =>
-    match (kv? rest "s").bind parseSigner with
-    | none => (st, "bad-op")
-    | some x => mgmt st (addSigner st.s ((kvNat? rest "id").getD 0) x) none []
-  | "sa" :: "rms" :: rest =>
-    match (kv? rest "s").bind parseSigner with
-    | none => (st, "bad-op")
-    | some x => mgmt st (removeSigner st.s ((kvNat? rest "id").getD 0) x) none []
-  | "sa" :: "addp" :: rest =>
-    let id := (kvNat? rest "id").getD 0
-    let p := (kvNat? rest "p").getD 0
-    mgmt st (addPolicy st.s id p (!(st.mocks.pol p).installTrap)) none [s!"i{p}/{id}"]
-  | "sa" :: "rmp" :: rest =>
-    let id := (kvNat? rest "id").getD 0
-    let p := (kvNat? rest "p").getD 0
-    mgmt st (removePolicy st.s id p) none [s!"u{p}/{id}"]
-  | "sa" :: kind :: rest =>
-    if kind = "check" ∨ kind = "e2e" then
-      let sigs := parseSigs ((kv? rest "sigs").getD "-")
-      let auth := natList ((kv? rest "auth").getD "-")
-      let ctxs := (splitList "," ((kv? rest "ctx").getD "-")).filterMap parseCtx
-      let O := oracleOf st.mocks auth
-      let tr := checkTrace O st.s st.now sigs ctxs
-      let log := tr.1.filterMap showEvent
-      match doCheckAuth O st.s st.now sigs ctxs with
-      | .ok calls =>
-        let st' := { st with mocks := st.mocks.spend (calls.map (·.policy)) }
-        (st', obsLine st' true none log)
-      | .error _ => (st, obsLine st false none log)
-    else (st, "bad-op")
-  | _ => (st, "bad-op")
+  match parseMOp (words line) with
+  | none => (st, "bad-op")
+  | some op =>
+    let r := mstep st op
+    (r.1, obsLine r.1 r.2.ok r.2.id (r.2.log.map showLEv))
 
-/-! ### monitor (independent of OZ.SmartAccount's transition functions) -/
-
-structure GRule where
-  id : Nat
-  ty : String
-  vu : Option Nat
-  signers : List String
-  policies : List Nat
-  deriving BEq, Repr
-
-structure Mon where
-  rules : List GRule := []
-  now : Nat := 0
-  mocks : Mocks := {}
+/-! ### monitor side: parse the implementation's observation -/
 
 /-- `id~vu~signers~policies` -/
-def parseGRule (ty : String) (s : String) : Option GRule :=
+def parseGRule (ty : RuleType) (s : String) : Option GRule :=
   match s.splitOn "~" with
   | [id, vu, sg, ps] => do
-    pure { id := (← id.toNat?), ty := ty, vu := parseOptNat vu, signers := splitList "+" sg,
-           policies := (splitList "+" ps).filterMap String.toNat? }
+    let sgs ← (splitList "+" sg).mapM parseSigner
+    let pls ← (splitList "+" ps).mapM String.toNat?
+    if vu != "-" ∧ vu.toNat?.isNone then none
+    else pure { id := (← id.toNat?), ty := ty, vu := parseOptNat vu, signers := sgs, policies := pls }
   | _ => none
 
-structure Obs where
-  ok : Bool
-  id : Option Nat
-  now : Nat
-  log : List String
-  cnt : Nat
-  ids : List String
-  rules : List GRule        -- in getter order: type universe order, then list order
-  flagged : Bool            -- a `!` or `?` anywhere (getter inconsistency flagged by the harness)
+/-- one `T:rule,rule,..` part of the getter dump; `none` = it does not parse (e.g. `T:?`) -/
+def parsePart (part : String) : Option (List GRule) :=
+  match part.splitOn ":" with
+  | [ty, body] => do
+    let t ← parseType ty
+    (splitList "," body).mapM (parseGRule t)
+  | _ => none
+
+/-- `<id><type>` e.g. `12C0` -/
+def parseIdTy (s : String) : Option (Nat × RuleType) :=
+  match s.splitOn "D", s.splitOn "C", s.splitOn "K" with
+  | [a, ""], _, _ => a.toNat?.map (fun id => (id, RuleType.default))
+  | _, [a, b], _ => do pure ((← a.toNat?), RuleType.call (← b.toNat?))
+  | _, _, [a, b] => do pure ((← a.toNat?), RuleType.create (← b.toNat?))
+  | _, _, _ => none
+
+def parseSgList (s : String) : Option (List Signer) := (splitList "+" s).mapM parseSigner
+
+def kindOf (s : String) : Nat :=
+  if s.startsWith "v" then 0 else if s.startsWith "c" then 1 else if s.startsWith "e" then 2 else 3
+
+def parseLEvRaw (s : String) : Option LEv :=
+  if s.startsWith "v" then
+    match (dropS s 1).splitOn "." with
+    | [v, k, g] => do pure (LEv.v (← v.toNat?) (← k.toNat?) (← g.toNat?))
+    | _ => none
+  else if s.startsWith "c" ∨ s.startsWith "e" then
+    match (dropS s 1).splitOn "/" with
+    | [p, rid, c, sg] => do
+      let p ← p.toNat?
+      let rid ← rid.toNat?
+      let c ← parseCtx c
+      let sg ← parseSgList sg
+      pure (if s.startsWith "c" then LEv.c p rid c sg else LEv.e p rid c sg)
+    | _ => none
+  else if s.startsWith "i" ∨ s.startsWith "u" then
+    match (dropS s 1).splitOn "/" with
+    | [p, id] => do
+      let p ← p.toNat?
+      let id ← id.toNat?
+      pure (if s.startsWith "i" then LEv.i p id else LEv.u p id)
+    | _ => none
+  else none
+
+/-- a log entry; anything that is not exactly the canonical rendering of a call becomes `other` -/
+def parseLEv (s : String) : LEv :=
+  match parseLEvRaw s with
+  | some ev => if showLEv ev = s then ev else .other (kindOf s) (((dropS s 1).splitOn "/").head?.bind String.toNat?) s
+  | none => .other (kindOf s) (((dropS s 1).splitOn "/").head?.bind String.toNat?) s
 
 def parseObs (line : String) : Option Obs :=
   match words line with
   | tag :: rest => do
     let now ← kvNat? rest "now"
     let cnt ← kvNat? rest "cnt"
-    let log := splitList ";" ((kv? rest "log").getD "-")
-    let ids := splitList "," ((kv? rest "ids").getD "-")
+    let log := (splitList ";" ((kv? rest "log").getD "-")).map parseLEv
+    let ids := (splitList "," ((kv? rest "ids").getD "-")).map parseIdTy
     let dump ← rest.getLast?
-    let rules := (dump.splitOn "|").flatMap (fun part =>
-      match part.splitOn ":" with
-      | [ty, body] => (splitList "," body).filterMap (parseGRule ty)
-      | _ => [])
-    pure { ok := tag = "ok", id := (kv? rest "id").bind String.toNat?, now, cnt, log, ids, rules,
-           flagged := line.contains '!' || line.contains '?' }
+    let parts := (dump.splitOn "|").map parsePart
+    pure { ok := tag = "ok", id := (kv? rest "id").bind String.toNat?, now, cnt, log,
+           ids := ids.filterMap id, rules := (parts.filterMap id).flatten,
+           flagged := line.contains '!' || line.contains '?' || ids.any Option.isNone || parts.any Option.isNone }
   | [] => none
 
-def insertSorted (x : Nat) : List Nat → List Nat
-  | [] => [x]
-  | y :: ys => if x < y then x :: y :: ys else if x == y then y :: ys else y :: insertSorted x ys
-
-def sortDedup (l : List Nat) : List Nat := l.foldr insertSorted []
-
-/-- the monitor's plain view: apply an ACCEPTED management op to the list of rules -/
-def ghostApply (rules : List GRule) (ws : List String) (o : Obs) : List GRule :=
-  let idOf := fun (rest : List String) => (kvNat? rest "id").getD 0
-  let modify := fun (id : Nat) (f : GRule → GRule) => rules.map (fun r => if r.id == id then f r else r)
-  match ws with
-  | "sa" :: "add" :: rest =>
-    match o.id with
-    | some id => rules ++ [{ id := id, ty := (kv? rest "t").getD "?", vu := parseOptNat ((kv? rest "vu").getD "-"),
-                             signers := splitList "+" ((kv? rest "s").getD "-"),
-                             policies := sortDedup ((splitList "+" ((kv? rest "p").getD "-")).filterMap String.toNat?) }]
-    | none => rules
-  | "sa" :: "rm" :: rest => rules.filter (fun r => r.id != idOf rest)
-  | "sa" :: "vu" :: rest => modify (idOf rest) (fun r => { r with vu := parseOptNat ((kv? rest "vu").getD "-") })
-  | "sa" :: "adds" :: rest => modify (idOf rest) (fun r => { r with signers := r.signers ++ [(kv? rest "s").getD "?"] })
-  | "sa" :: "rms" :: rest => modify (idOf rest) (fun r => { r with signers := r.signers.filter (· != (kv? rest "s").getD "?") })
-  | "sa" :: "addp" :: rest => modify (idOf rest) (fun r => { r with policies := r.policies ++ [(kvNat? rest "p").getD 0] })
-  | "sa" :: "rmp" :: rest => modify (idOf rest) (fun r => { r with policies := r.policies.filter (· != (kvNat? rest "p").getD 0) })
-  | _ => rules
-
-def byIdAsc (l : List GRule) : List GRule := l.mergeSort (fun a b => a.id ≤ b.id)
-def byIdDesc (l : List GRule) : List GRule := l.mergeSort (fun a b => a.id ≥ b.id)
-
-def ctxType (c : String) : String := (c.splitOn ".").headD "?"
-def ctxIsCreate (c : String) : Bool := c.startsWith "K"
-def ctxTag (c : String) : Nat := (((c.splitOn ".").drop 1).headD "0").toNat?.getD 0
-
-def live (now : Nat) (r : GRule) : Bool :=
-  match r.vu with
-  | some v => decide (now ≤ v)
-  | none => true
-
-/-- precedence order of the property: newest first, type-specific before Default, unexpired only -/
-def candidates (rules : List GRule) (now : Nat) (c : String) : List GRule :=
-  byIdDesc (rules.filter (fun r => r.ty == ctxType c && live now r)) ++
-  byIdDesc (rules.filter (fun r => r.ty == "D" && live now r))
-
-def monCan (m : Mocks) (p : Nat) (c : String) (n : Nat) (rid : Nat) : Bool :=
-  let cfg := m.pol p
-  let thr := (lookup cfg.thr rid).getD cfg.dflt
-  let denied := if ctxIsCreate c then cfg.denyCreate else cfg.denyFn.contains (ctxTag c)
-  decide (thr ≤ n) && !denied
-
-/-- the rule's own signers that were supplied, in rule order -/
-def counted (r : GRule) (supplied : List String) : List String := r.signers.filter (supplied.contains ·)
-
-def satisfied (m : Mocks) (c : String) (supplied : List String) (r : GRule) : Bool :=
-  if r.policies.isEmpty then r.signers.all (supplied.contains ·)
-  else r.policies.all (fun p => monCan m p c (counted r supplied).length r.id)
-
-/-- can_enforce questions a precedence-respecting evaluation asks for one context -/
-def expectedCans (m : Mocks) (c : String) (supplied : List String) : List GRule → List String
-  | [] => []
-  | r :: rs =>
-    let cs := counted r supplied
-    let asked : List Nat := (r.policies.foldl (fun (acc : List Nat × Bool) p =>
-        if acc.2 then acc else (acc.1 ++ [p], !(monCan m p c cs.length r.id))) ([], false)).1
-    let evs := asked.map (fun p => s!"c{p}/{r.id}/{c}/{plus cs}")
-    if satisfied m c supplied r then evs else evs ++ expectedCans m c supplied rs
-
-def sigValid (m : Mocks) (auth : List Nat) (sg : String) (g : Nat) : Bool :=
-  match parseSigner sg with
-  | some (.external v k) => m.verify v k g
-  | some (.delegated a) => auth.contains a
-  | none => false
-
-def countBefore (l : List Nat) (p : Nat) : Nat := (l.filter (· == p)).length
-
-/-- does the ghost budget let every expected enforce call through? -/
-def enforceAllowed (m : Mocks) : List Nat → List Nat → Bool
-  | _, [] => true
-  | seen, p :: ps => m.enfOk p (countBefore seen p) && enforceAllowed m (seen ++ [p]) ps
-
-def checkAuthMon (mn : Mon) (rest : List String) (o : Obs) : Option String :=
-  let sigs : List (String × Nat) := (splitList "," ((kv? rest "sigs").getD "-")).filterMap (fun t =>
-    match t.splitOn ":" with
-    | [a, g] => g.toNat?.map (fun g => (a, g))
-    | _ => none)
-  let auth := natList ((kv? rest "auth").getD "-")
-  let ctxs := splitList "," ((kv? rest "ctx").getD "-")
-  let supplied := sigs.map (·.1)
-  let allValid := sigs.all (fun (a, g) => sigValid mn.mocks auth a g)
-  let chosen : List (String × Option GRule) :=
-    ctxs.map (fun c => (c, (candidates mn.rules mn.now c).find? (satisfied mn.mocks c supplied)))
-  let covered := chosen.all (fun p => p.2.isSome)
-  let expEnforce : List String := chosen.flatMap (fun (c, r) =>
-    match r with
-    | some r => r.policies.map (fun p => s!"e{p}/{r.id}/{c}/{plus (counted r supplied)}")
-    | none => [])
-  let expEnforcePols : List Nat := chosen.flatMap (fun (_, r) => match r with | some r => r.policies | none => [])
-  let expCans : List String := ctxs.flatMap (fun c => expectedCans mn.mocks c supplied (candidates mn.rules mn.now c))
-  let logV := o.log.filter (·.startsWith "v")
-  let logC := o.log.filter (·.startsWith "c")
-  let logE := o.log.filter (·.startsWith "e")
-  -- foreign signers: every signer list handed to a policy is exactly (rule signers ∩ supplied)
-  let foreign : Option String := (logC ++ logE).findSome? (fun ev =>
-    match (dropS ev 1).splitOn "/" with
-    | [_, rid, _, sg] =>
-      match mn.rules.find? (fun r => some r.id == rid.toNat?) with
-      | some r => if plus (counted r supplied) == sg then none else some ev
-      | none => some ev
-    | _ => some ev)
-  if o.ok then
-    if !allValid then some s!"site=c03.sound.signature accepted although a supplied signature does not verify"
-    else if logV != (sigs.filterMap (fun (a, g) => match parseSigner a with
-        | some (.external v k) => if v ≥ 2 then none else some s!"v{v}.{k}.{g}"
-        | _ => none)) then
-      some s!"site=c03.sound.verified verifier calls {o.log} do not cover every supplied external signature"
-    else if !covered then
-      some s!"site=c03.sound.uncovered accepted although some context has no satisfied live rule; chosen={chosen.map (fun p => (p.1, p.2.map (·.id)))}"
-    else if foreign.isSome then
-      some s!"site=c03.foreign a policy received signers other than (rule signers ∩ supplied): {foreign.getD ""}"
-    else if logE != expEnforce then
-      some s!"site=c03.sound.enforce enforce calls {logE} but the first satisfied rules require {expEnforce}"
-    else if logC != expCans then
-      some s!"site=c03.precedence can_enforce calls {logC} but precedence order asks {expCans}"
-    else none
-  else
-    if allValid && covered && enforceAllowed mn.mocks [] expEnforcePols then
-      some s!"site=c03.complete rejected although all signatures verify, every context has a satisfied live rule (chosen={chosen.map (fun p => (p.1, p.2.map (·.id)))}) and no enforce hook refuses"
-    else if foreign.isSome then
-      some s!"site=c03.foreign a policy received signers other than (rule signers ∩ supplied): {foreign.getD ""}"
-    else none
-
-def getterCheck (rules : List GRule) (o : Obs) : Option String :=
-  -- getters list each type's rules in insertion order = ascending id (ids are handed out increasingly)
-  let expect := ["D", "C0", "C1", "C2", "K0", "K1", "K2"].flatMap (fun t => byIdAsc (rules.filter (·.ty == t)))
-  let expIds := (byIdAsc rules).map (fun r => s!"{r.id}{r.ty}")
-  if o.flagged then some "site=c03.getters the harness flagged an inconsistent getter / rule handed to a policy"
-  else if o.rules != expect then some s!"site=c03.getters get_context_rules disagree with the accepted management history"
-  else if o.ids != expIds then some s!"site=c03.getters get_context_rule by id {o.ids} disagrees with {expIds}"
-  else if o.cnt != rules.length then some s!"site=c03.getters count {o.cnt} but {rules.length} rules"
-  else if rules.length > 15 ∨ rules.any (fun r => r.signers.length > 15 ∨ r.policies.length > 5 ∨ (r.signers.isEmpty && r.policies.isEmpty)) then
-    some "site=c03.limits a documented limit (15 rules / 15 signers / 5 policies / non-empty) is exceeded"
-  else none
-
-def sameSet {α} [BEq α] (a b : List α) : Bool := a.all (b.contains ·) && b.all (a.contains ·)
-
-/-- no two stored rules may have the same type, signer set and policy set (duplicate fingerprint) -/
-def fingerprintCheck (rules : List GRule) : Option String :=
-  let rec go : List GRule → Option String
-    | [] => none
-    | r :: rest =>
-      match rest.find? (fun q => q.ty == r.ty && sameSet q.signers r.signers && sameSet q.policies r.policies) with
-      | some q => some s!"site=c03.fingerprint.duplicate rules {r.id} and {q.id} have identical type, signers and policies"
-      | none => go rest
-  go rules
+def minit (label : String) : Mon :=
+  let p := parseLabel label
+  monInit p.2.1 p.2.2
 
 def monStep (mn : Mon) (opl obs : String) : Mon × Option String :=
   match parseObs obs with
   | none => (mn, some s!"site=c03.parse unparsable observation {obs}")
   | some o =>
-    let ws := words opl
-    let mn := { mn with now := o.now }
-    match ws with
-    | "sa" :: kind :: rest =>
-      if kind = "check" ∨ kind = "e2e" then
-        let verdict := checkAuthMon mn rest o
-        -- ghost budgets move only on an accepted check
-        let spent : List Nat := if o.ok then (o.log.filter (·.startsWith "e")).filterMap (fun ev =>
-            ((dropS ev 1).splitOn "/").head?.bind String.toNat?) else []
-        let mn' := { mn with mocks := mn.mocks.spend spent }
-        match verdict with
-        | some v => (mn', some v)
-        | none => (mn', getterCheck mn'.rules o)
-      else if kind = "vset" ∨ kind = "pset" then
-        let mn' := { mn with mocks := applySetter mn.mocks ws }
-        (mn', getterCheck mn'.rules o)
-      else if kind = "ledger" then
-        -- pure passage of time: nothing may happen to the rule store
-        match getterCheck mn.rules o with
-        | some msg => (mn, some s!"site=c03.idle.changed the rule store changed by the mere passage of time (ledger {o.now}): {msg.replace "site=" "was="}")
-        | none => (mn, none)
-      else
-        let mn' := if o.ok then { mn with rules := ghostApply mn.rules ws o } else mn
-        match getterCheck mn'.rules o with
-        | some msg => (mn', some msg)
-        | none => (mn', if o.ok then fingerprintCheck mn'.rules else none)
-    | _ => (mn, getterCheck mn.rules o)
+    match parseMOp (words opl) with
+    | none => (mn, some s!"site=c03.parse unparsable op {opl}")
+    | some op => checkCore mn op o
 
 def machine : Machine where
   σ := St
-  init := initSt
+  init := initM
   op := stepLine
   μ := Mon
-  minit := fun label =>
-    -- the constructor installs rule 0: Default, no expiry, signers s0, policies p0
-    let ws := words label
-    { rules := [{ id := 0, ty := "D", vu := none, signers := splitList "+" ((kv? ws "s0").getD "-"),
-                  policies := sortDedup ((splitList "+" ((kv? ws "p0").getD "-")).filterMap String.toNat?) }] }
+  minit := minit
   mon := monStep
 
 end OZ.Drv.C03
